@@ -533,6 +533,60 @@ func genSpoeCase(r *prng.R, id string) proto.Case {
 	return proto.Case{ID: id, Ops: ops}
 }
 
+// The same URL pattern declared under several methods, each with an authentication remedy on its OWN account
+// (plus overlapping patterns and an optional global one); forwarded requests of every method in several
+// first-seen orders, through the dispatcher and - after `load` - through the SPOE handler.  The credentials that
+// leave the engine must be those of the remedy declared for the request's method.
+func genAuthCase(r *prng.R, id string) proto.Case {
+	base := prng.Pick(r, []string{"api.com/orders/{id}", "api.com/orders", "a.com/x/*", "a.com/{p}/items", "b.com/v1/{p}/rows/{q}"})
+	pats := []string{base}
+	if r.Chance(50) {
+		pats = append(pats, derivePattern(r, base))
+	}
+	var ops []string
+	k := 0
+	for _, p := range pats {
+		ms := append([]string{}, methods...)
+		prng.Shuffle(r, ms)
+		for _, m := range ms[:r.Range(2, 3)] {
+			rem := fmt.Sprintf("k%d:9:1", k)
+			if r.Chance(15) {
+				rem = fmt.Sprintf("k%d:9:0", k) // disabled
+			}
+			if r.Chance(20) {
+				rem += fmt.Sprintf(",f%d:7:1", k) // a fixed-response remedy next to it (inert without the early-response header)
+			}
+			ops = append(ops, fmt.Sprintf("ep %s %s r=%s d=-", m, proto.Enc(p), rem))
+			k++
+		}
+	}
+	if r.Chance(30) {
+		ops = append(ops, "glob r=gk:9:1 d=-")
+	}
+	n := len(ops)
+	if strings.HasPrefix(ops[n-1], "glob") {
+		n--
+	}
+	var reqs []string
+	for _, p := range pats {
+		u := instantiate(r, p, false)
+		for _, m := range methods {
+			reqs = append(reqs, "auth "+m+" "+proto.Enc(u))
+		}
+		reqs = append(reqs, "req GET "+proto.Enc(u))
+	}
+	how := "build"
+	if r.Bool() {
+		how = "load"
+	}
+	for round := 0; round < 2; round++ {
+		prng.Shuffle(r, reqs) // another first-seen order
+		ops = append(ops, how+" perm="+permStr(prng.Pick(r, allPerms(n))))
+		ops = append(ops, reqs...)
+	}
+	return proto.Case{ID: id, Ops: ops}
+}
+
 // ---- L1 cases ---------------------------------------------------------------------------------
 
 func genTrieCase(r *prng.R, id string) proto.Case {
@@ -650,6 +704,8 @@ func gen(r *prng.R, f proto.Flags, emit func(proto.Case)) {
 			emit(genRevertCase(rr, fmt.Sprintf("v%d", k)))
 		case k%25 == 11:
 			emit(genSpoeCase(rr, fmt.Sprintf("s%d", k)))
+		case k%25 == 12:
+			emit(genAuthCase(rr, fmt.Sprintf("a%d", k)))
 		case k%3 == 0:
 			emit(genTrieCase(rr, fmt.Sprintf("t%d", k)))
 		default:
